@@ -23,7 +23,7 @@ FILES = ['regions/shapes/circle.py', 'regions/shapes/ellipse.py', 'regions/shape
          'regions/shapes/line.py', 'regions/core/compound.py', 'regions/core/core.py',
          'regions/core/pixcoord.py']
 RULE = ('full Cartesian product of shape class x size (pairs) x angle x angular unit/representation x centre, '
-        'each crossed with the 5 include flags (flat query) and, on every 6th configuration per class, with all 9 query container forms x 5 flags; queries are generated in the shape '
+        'each crossed with the 5 include flags (flat query) and, on every 6th configuration per class, with all 12 query container forms x 5 flags; queries are generated in the shape '
         'frame at normalised radii {0,.3,.7,.9,.99,1-2^-10,1+2^-10,1.01,1.1,1.5,3} x 16 directions; a '
         'configuration is non-trivial when it has sure members and sure non-members within 1% of the boundary')
 BOUNDS = {'quick': '5 sizes (2^-30, 2^-10 .. 1.75*2^20), 6 angles x 3 representations, 2 centres, all classes, all includes, all containers',
@@ -100,7 +100,7 @@ def configs(tier):
     return out
 
 
-CONTAINERS = ['flat', 'scalar', 'scalar_int', 'empty', '2d', '3d', 'broadcast', 'intarr', 'in_array', 'narrow_int', 'reassign']
+CONTAINERS = ['flat', 'scalar', 'scalar_int', 'empty', '2d', '3d', 'layout', 'broadcast', 'intarr', 'in_array', 'narrow_int', 'reassign']
 
 
 def _isboolscalar(v):
@@ -228,6 +228,23 @@ def _one(res, reg, ref, s, flag, cont, case, qx, qy, ins0, sure0, PixCoord):
         got = reg.contains(PixCoord(x, y))
         ok = _cmp(res, case, cont, got, want_of(ins0[:2 * k].reshape(shp)), sure0[:2 * k].reshape(shp), shp)
         res.outcome((cont, s['cls'], flag, ok))
+    elif cont == 'layout':
+        # the same 2-d / 3-d queries in other memory layouts: column-major (Fortran) order, transposed views, strided views
+        k = min(9, qx.size // 3)
+        shp = (3, k)
+        x, y = qx[:3 * k].reshape(shp), qy[:3 * k].reshape(shp)
+        want, sure = want_of(ins0[:3 * k].reshape(shp)), sure0[:3 * k].reshape(shp)
+        forms = {'fortran': (np.asfortranarray(x), np.asfortranarray(y)),
+                 'transposed_view': (np.ascontiguousarray(x.T).T, np.ascontiguousarray(y.T).T),
+                 'strided': (np.repeat(x, 2, axis=1)[:, ::2], np.repeat(y, 2, axis=1)[:, ::2]),
+                 'fortran_3d': (np.asfortranarray(x.reshape(3, 1, k)), np.asfortranarray(y.reshape(3, 1, k)))}
+        allok = True
+        for fname, (fx, fy) in forms.items():
+            res.transitions += 1
+            got = reg.contains(PixCoord(fx, fy))
+            shp2 = fx.shape
+            allok = _cmp(res, dict(case, layout=fname), f'layout {fname}', got, want.reshape(shp2), sure.reshape(shp2), shp2) and allok
+        res.outcome(('layout', s['cls'], flag, allok))
     elif cont == 'broadcast':
         k = min(12, qx.size)
         x = qx[-k:]
